@@ -125,7 +125,7 @@ def cases(rng, tier):
                 used.add((g, b))
                 pairs.append((g, b))
         else:             # duplicates likely
-            pairs = [(rng.randrange(3), rng.choice([0, 1, 2, 4294967295])) for _ in range(nvars)]
+            pairs = [(rng.randrange(3), rng.choice([0, 1, 2, 4294967295, 63, 64, 65, 100, 65536, 2147483648])) for _ in range(nvars)]
         out.append({"wgsl": render(pairs, rng), "family": "random",
                     "opts": {"validate": rng.random() < 0.3}, "truth_pairs": pairs})
     return out
